@@ -67,31 +67,43 @@ Inductive chunk := CkBits (n : nat) | CkUint (n : nat) | CkBytes (k : nat) | CkB
 (* how the constructor tag is read:
    - TagBitwise: one load_bit per tested bit;
    - TagChunk c: the whole tag at once;
-   - TagChunks cs: in several pieces (load_bits(3) then load_bit(), load_bits(3) then load_bits(2)); a piece
-     is loaded as soon as no remaining constructor can be recognised without it;
+   - TagChunks cs: in several pieces (load_bits(3) then load_bit(), load_bits(3) then load_bits(2)).  A piece
+     flagged true is loaded as soon as no remaining constructor can be recognised without it (the code loads
+     it before it compares anything, even for tags that will be rejected); a piece flagged false only once
+     all the bits loaded before it have been looked at;
    - TagPeek: the tag is only looked at (preload_bits) and left to the parser of the type the
      constructor stands for (_ X = T with the tag of X written in front), constructor after constructor,
      the last one being the default. *)
-Inductive tagmode := TagBitwise | TagChunk (c : chunk) | TagChunks (cs : list chunk) | TagPeek.
+Inductive tagmode := TagBitwise | TagChunk (c : chunk) | TagChunks (cs : list (chunk * bool)) | TagPeek.
 (* what deserialize does with an exotic (pruned) cell before anything is read *)
 Inductive special := SpNo | SpNone (* returns None *) | SpCell (* returns the cell *).
 
 (* operands of a constraint { a <= b }: an integer field bound earlier in the constructor, or a literal *)
 Inductive gref := GName (nm : string) | GNum (z : Z).
 
+(* conditions of conditional fields: `b?` on a one-bit field, `x . 0?` on the lowest bit of a w-bit field *)
+Inductive cond := CBit (src : string) | CLowBit (src : string) (w : nat).
+
 Inductive item :=
 | INamed (nm : string) (f : fty)
 | IGroup (fs : list (string * fty))              (* ^[ fields ] *)
 | IConst (c : chunk) (bits : list bool)          (* x:(## n) { x = const }: read, checked, not kept *)
 | INamedHex (nm hexnm : string) (n : nat)        (* bits(8n) kept twice: as bytes and as bytes.hex() *)
-| IGuard (op : gop) (a b : gref).                (* { a op b }: no bits, checked *)
+| IGuard (op : gop) (a b : gref)                 (* { a op b }: no bits, checked *)
+| ICond (c : cond) (nm : string) (f : fty)       (* nm:(c ? X): present when the condition on an earlier field holds,
+                                                    else None *)
+| IRefParam (nm T src : string)                  (* nm:^(T src): the type parameter is an earlier one-bit field *)
+| INamedConst (nm : string) (c : chunk) (bits : list bool).   (* x:(## n) { x = const }, kept as an attribute *)
 
 Inductive cret :=
 | RObj (cls : string) (consts : list (string * cval))
 | RNone                                          (* the constructor is represented by None *)
 | RSame                                          (* _ X = T: the value of the only field is returned *)
-| RSameCls (cls : string).                       (* the same, for a type with several such constructors: this one
+| RSameCls (cls : string)                        (* the same, for a type with several such constructors: this one
                                                     is the constructor of the values of class cls *)
+| RObjAlt (cls : string) (consts : list (string * cval)) (alt : bool).
+                                                 (* an object that does not record which constructor built it: the
+                                                    encoder is told (the choice function, as for Either) *)
 
 Record ctor := mkCtor { c_tag : list bool; c_ret : cret; c_items : list item }.
 (* t_snap: the attribute under which the object keeps the cell it was parsed from (cell_slice.to_cell()
@@ -172,6 +184,7 @@ Definition item_names (it : item) : list string :=
   | IConst _ _ => []
   | INamedHex nm hexnm _ => [nm; hexnm]
   | IGuard _ _ _ => []
+  | ICond _ nm _ | IRefParam nm _ _ | INamedConst nm _ _ => [nm]
   end.
 Definition items_names (its : list item) : list string := flat_map item_names its.
 Definition snap_names (snap : option string) : list string := match snap with Some nm => [nm] | None => [] end.
@@ -179,11 +192,14 @@ Definition ctor_names (consts : list (string * cval)) (snap : option string) (it
   sort_names (map fst consts ++ snap_names snap ++ items_names its).
 
 (* which constructor a value belongs to: class name and constant attributes *)
-Definition ctor_matches (c : ctor) (v : pv) : bool :=
+Definition ctor_matches (ch : pv -> bool) (c : ctor) (v : pv) : bool :=
   match c_ret c, v with
   | RNone, PNone => true
   | RObj cls consts, PObj cls' fs =>
       String.eqb cls cls' && forallb (fun '(nm, cv) => cval_matchb cv (assoc nm fs)) consts
+  | RObjAlt cls consts alt, PObj cls' fs =>
+      String.eqb cls cls' && forallb (fun '(nm, cv) => cval_matchb cv (assoc nm fs)) consts
+      && Bool.eqb (ch v) alt
   | RSame, _ => true
   | RSameCls cls, PObj cls' _ => String.eqb cls cls'
   | _, _ => false
@@ -196,6 +212,24 @@ Definition ctor_look (c : ctor) (v : pv) : string -> pv :=
 Definition numof (v : pv) : Z := match v with PInt z => z | PBool true => 1 | _ => 0 end.
 Definition gnum (look : string -> pv) (g : gref) : Z :=
   match g with GName nm => numof (look nm) | GNum z => z end.
+Definition cond_holds (look : string -> pv) (c : cond) : bool :=
+  match c with
+  | CBit s => match look s with PBool b => b | _ => false end
+  | CLowBit s _ => match look s with PInt z => Z.testbit z 0 | _ => false end
+  end.
+Definition cond_src_ok (look : string -> pv) (c : cond) : Prop :=
+  match c with
+  | CBit s => match look s with PBool _ => True | _ => False end
+  | CLowBit s _ => match look s with PInt z => 0 <= z | _ => False end
+  end.
+(* the value a checked-and-kept constant has *)
+Definition chunk_val (c : chunk) (bits : list bool) : pv :=
+  match c with
+  | CkBits _ => PBits bits
+  | CkUint _ => PInt (Z.of_N (of_bits bits))
+  | CkBytes _ => PBytes (bits_to_bytes bits)
+  | CkBit => PBool (hd false bits)
+  end.
 Definition guard_holds (look : string -> pv) (op : gop) (a b : gref) : bool :=
   let x := gnum look a in let y := gnum look b in
   match op with GLt => x <? y | GLe => x <=? y | GGt => y <? x | GGe => y <=? x end.
@@ -359,6 +393,12 @@ Section Enc.
     | IConst _ bits => ok_bits bits
     | INamedHex nm _ _ => match look nm with PBytes bs => ok_bits (enc_bytes bs) | _ => Err EType end
     | IGuard _ _ _ => ok_bits []
+    | ICond c nm f => if cond_holds look c then enc_field f (look nm) else ok_bits []
+    | IRefParam nm T src =>
+        let a := [if cond_holds look (CBit src) then 1 else 0] in
+        bind (ety T a (look nm)) (fun '(b, r) =>
+        Ok ([], [Cell ty_ordinary (b ++ fst (rty T a (look nm))) (r ++ snd (rty T a (look nm)))]))
+    | INamedConst _ _ bits => ok_bits bits
     end.
 
   Fixpoint enc_items (look : string -> pv) (its : list item) : enc_res :=
@@ -377,7 +417,7 @@ Section Enc.
     bind (enc_items (ctor_look c v) (c_items c)) (fun '(b, r) => Ok (own_tag m c ++ b, r)).
 
   Definition enc_layout (L : tlayout) (v : pv) : enc_res :=
-    match find (fun c => ctor_matches c v) (t_ctors L) with
+    match find (fun c => ctor_matches ch c v) (t_ctors L) with
     | Some c => enc_ctor (t_mode L) c v
     | None => Err EType
     end.
@@ -397,7 +437,7 @@ Section Enc.
     | _ :: r => rest_items look r
     end.
   Definition rest_layout (L : tlayout) (v : pv) : tail :=
-    match find (fun c => ctor_matches c v) (t_ctors L) with
+    match find (fun c => ctor_matches ch c v) (t_ctors L) with
     | Some c => rest_items (ctor_look c v) (c_items c)
     | None => no_tail
     end.
@@ -514,6 +554,14 @@ Section Wt.
         | _ => False
         end
     | IGuard op a b => guard_holds look op a b = true
+    | ICond cd nm f =>
+        cond_src_ok look cd /\
+        if cond_holds look cd then wt_field f (look nm) c else look nm = PNone
+    | IRefParam nm T src =>
+        cond_src_ok look (CBit src) /\
+        let a := [if cond_holds look (CBit src) then 1 else 0] in
+        wty T a (Some (rty T a (look nm))) (look nm)
+    | INamedConst nm ck bits => look nm = chunk_val ck bits
     end.
 
   (* what follows the last item is what follows the value *)
@@ -528,7 +576,7 @@ Section Wt.
   Definition wt_ctor (snap : option string) (c : ctor) (cx : ctx) (v : pv) : Prop :=
     match c_ret c with
     | RNone => v = PNone
-    | RObj cls consts =>
+    | RObj cls consts | RObjAlt cls consts _ =>
         v = PObj cls (map (fun nm => (nm, field_of v nm)) (ctor_names consts snap (c_items c)))
     | RSame | RSameCls _ => True
     end /\ wt_items (ctor_look c v) cx (c_items c).
@@ -545,7 +593,7 @@ Section Wt.
     end.
 
   Definition wt_layout (L : tlayout) (cx : ctx) (v : pv) : Prop :=
-    match find (fun c => ctor_matches c v) (t_ctors L) with
+    match find (fun c => ctor_matches ch c v) (t_ctors L) with
     | Some c => wt_ctor (t_snap L) c cx v /\ snap_ok L cx v
     | None => False
     end.
@@ -661,6 +709,12 @@ Definition gexpr_of (acc : list (string * dexpr)) (g : gref) : gexpr :=
       end
   end.
 
+(* where a condition is tested: the variable its source was loaded into, and the bit *)
+Definition var_of (acc : list (string * dexpr)) (s : string) : nat :=
+  match assoc_expr s acc with EVar i => i | _ => 0%nat end.
+Definition cond_test (acc : list (string * dexpr)) (c : cond) : nat * nat :=
+  match c with CBit s => (var_of acc s, 0%nat) | CLowBit s w => (var_of acc s, (w - 1)%nat) end.
+
 Fixpoint compile_items (its : list item) (sid n ns : nat) (acc : list (string * dexpr)) (k : kont) : dtree :=
   match its with
   | [] => k n ns acc
@@ -675,12 +729,24 @@ Fixpoint compile_items (its : list item) (sid n ns : nat) (acc : list (string * 
       DOp sid (OBytes w) (compile_items r sid (S n) ns (acc ++ [(nm, EVar n); (hexnm, EHex (EVar n))]) k)
   | IGuard op a b :: r =>
       DGuard op (gexpr_of acc a) (gexpr_of acc b) DFail (compile_items r sid n ns acc k)
+  | ICond c nm f :: r =>
+      DIf (fst (cond_test acc c)) (snd (cond_test acc c))
+        (compile_items r sid n ns (acc ++ [(nm, ENone)]) k)
+        (compile_field f nm sid n ns acc (fun n' ns' acc' => compile_items r sid n' ns' acc' k))
+  | IRefParam nm T src :: r =>
+      DOp sid (ORef ns)
+        (DIf (var_of acc src) 0
+           (DOp ns (OCall T [0]) (compile_items r sid (S (S n)) (S ns) (acc ++ [(nm, EVar (S n))]) k))
+           (DOp ns (OCall T [1]) (compile_items r sid (S (S n)) (S ns) (acc ++ [(nm, EVar (S n))]) k)))
+  | INamedConst nm c bits :: r =>
+      DOp sid (chunk_op c) (check_bits n 0 bits (compile_items r sid (S n) ns (acc ++ [(nm, EVar n)]) k))
   end.
 
 Definition ret_expr (r : cret) (snap acc : list (string * dexpr)) : dexpr :=
   match r with
   | RNone => ENone
-  | RObj cls consts => EObj cls (sort_by_name (map (fun '(nm, cv) => (nm, cval_expr cv)) consts ++ snap ++ acc))
+  | RObj cls consts | RObjAlt cls consts _ =>
+      EObj cls (sort_by_name (map (fun '(nm, cv) => (nm, cval_expr cv)) consts ++ snap ++ acc))
   | RSame | RSameCls _ => match acc with [(_, e)] => e | _ => ENone end
   end.
 
@@ -735,32 +801,43 @@ Section Tries.
     end.
 
   (* the tag is loaded in pieces.  pend: the (variable, bit) pairs loaded and not yet tested; rest: the
-     pieces not yet loaded; n variables are bound.  A piece is loaded when no remaining constructor can be
-     recognised with the pending bits alone. *)
+     pieces not yet loaded (with their flag); n variables are bound. *)
   Definition can_finish (cs : tagged) (p : nat) : bool :=
     existsb (fun '(t, _) => (List.length t <=? p)%nat) cs.
   Definition chunk_srcs (v w : nat) : list (nat * nat) := map (fun i => (v, i)) (seq 0 w).
-  Fixpoint trie_multi (fuel : nat) (cs : tagged) (pend : list (nat * nat)) (rest : list chunk) (n : nat)
+  Definition next_eager (rest : list (chunk * bool)) : bool :=
+    match rest with (_, e) :: _ => e | [] => false end.
+  Fixpoint trie_multi (fuel : nat) (cs : tagged) (pend : list (nat * nat)) (rest : list (chunk * bool)) (n : nat)
     : dtree :=
     match fuel with
     | O => DFail
     | S f =>
-        let load :=
-          match rest with
-          | [] => DFail
-          | ck :: rest' =>
-              DOp 0 (chunk_op ck) (trie_multi f cs (pend ++ chunk_srcs n (chunk_width ck)) rest' (S n))
-          end in
-        match find_done cs with
-        | Some c => compile_ctor snap c n
-        | None =>
-            match pend with
-            | (v, i) :: pend' =>
-                if can_finish cs (List.length pend)
-                then DIf v i (trie_multi f (sub_tags false cs) pend' rest n)
-                             (trie_multi f (sub_tags true cs) pend' rest n)
-                else load
-            | [] => load
+        match cs with
+        | [] =>
+            (* no constructor left: a piece the code loads unconditionally is still loaded *)
+            match rest with
+            | (ck, true) :: rest' =>
+                DOp 0 (chunk_op ck) (trie_multi f [] (pend ++ chunk_srcs n (chunk_width ck)) rest' (S n))
+            | _ => DFail
+            end
+        | _ =>
+            let load :=
+              match rest with
+              | [] => DFail
+              | (ck, _) :: rest' =>
+                  DOp 0 (chunk_op ck) (trie_multi f cs (pend ++ chunk_srcs n (chunk_width ck)) rest' (S n))
+              end in
+            match find_done cs with
+            | Some c => compile_ctor snap c n
+            | None =>
+                match pend with
+                | (v, i) :: pend' =>
+                    if can_finish cs (List.length pend) || negb (next_eager rest)
+                    then DIf v i (trie_multi f (sub_tags false cs) pend' rest n)
+                                 (trie_multi f (sub_tags true cs) pend' rest n)
+                    else load
+                | [] => load
+                end
             end
         end
     end.
@@ -850,7 +927,9 @@ Definition wf_item (it : item) : bool :=
   | INamed _ f => wf_fty f
   | IGroup fs => forallb (fun p => wf_fty (snd p)) fs
   | IConst c bits => chunk_ok c bits
-  | INamedHex _ _ _ | IGuard _ _ _ => true
+  | INamedHex _ _ _ | IGuard _ _ _ | IRefParam _ _ _ => true
+  | ICond _ _ f => wf_fty f
+  | INamedConst _ c bits => chunk_ok c bits
   end.
 (* the operands of every constraint are bound by an earlier item of the constructor *)
 Definition gref_bound (bound : list string) (g : gref) : bool :=
@@ -865,23 +944,65 @@ Fixpoint guards_bound (bound : list string) (its : list item) : bool :=
 (* pieces a tag may be read in: the widths a tag may have are the partial sums of the piece widths *)
 Definition piece_ok (c : chunk) : bool :=
   match c with CkBits n => (1 <=? n)%nat | CkBit => true | _ => false end.
-Fixpoint tag_aligned (len : nat) (cks : list chunk) : bool :=
+Fixpoint tag_aligned (len : nat) (cks : list (chunk * bool)) : bool :=
   match cks with
   | [] => false
-  | ck :: r => (len =? chunk_width ck)%nat || ((chunk_width ck <? len)%nat && tag_aligned (len - chunk_width ck) r)
+  | (ck, _) :: r => (len =? chunk_width ck)%nat || ((chunk_width ck <? len)%nat && tag_aligned (len - chunk_width ck) r)
   end.
+(* the fields a later condition (or type parameter) reads: a one-bit field (width 1), or a w-bit field whose
+   lowest bit is tested; the bit test relies on the width the field was loaded with *)
+Definition ctor_wtab (its : list item) : list (string * nat) :=
+  flat_map (fun it => match it with
+                      | ICond (CLowBit s w) _ _ => [(s, w)]
+                      | ICond (CBit s) _ _ | IRefParam _ _ s => [(s, 1%nat)]
+                      | _ => []
+                      end) its.
+Definition fty_src_ok (f : fty) (w : nat) : bool :=
+  match f with FUint w' => (w' =? w)%nat | FBit | FBool => (w =? 1)%nat | _ => false end.
+(* a name of the table is bound by such a field only *)
+Definition name_wok (wtab : list (string * nat)) (nm : string) (f : fty) : bool :=
+  forallb (fun p => negb (String.eqb (fst p) nm) || fty_src_ok f (snd p)) wtab.
+Definition name_free (wtab : list (string * nat)) (nm : string) : bool :=
+  forallb (fun p => negb (String.eqb (fst p) nm)) wtab.
+Definition item_wok (wtab : list (string * nat)) (it : item) : bool :=
+  match it with
+  | INamed nm f => name_wok wtab nm f
+  | IGroup fs => forallb (fun p => name_wok wtab (fst p) (snd p)) fs
+  | _ => forallb (name_free wtab) (item_names it)
+  end.
+Definition wtab_ok (wtab : list (string * nat)) (its : list item) : bool := forallb (item_wok wtab) its.
+(* the source of every condition is bound by an earlier item and is in the table; w >= 1 *)
+Definition cond_ok (bound : list string) (wtab : list (string * nat)) (c : cond) : bool :=
+  match c with
+  | CBit s => existsb (String.eqb s) bound
+              && existsb (fun p => String.eqb (fst p) s && (snd p =? 1)%nat) wtab
+  | CLowBit s w => existsb (String.eqb s) bound && (1 <=? w)%nat
+                   && existsb (fun p => String.eqb (fst p) s && (snd p =? w)%nat) wtab
+  end.
+Fixpoint conds_ok (bound : list string) (wtab : list (string * nat)) (its : list item) : bool :=
+  match its with
+  | [] => true
+  | it :: r =>
+      match it with
+      | ICond c _ _ => cond_ok bound wtab c
+      | IRefParam _ _ src => cond_ok bound wtab (CBit src)
+      | _ => true
+      end && conds_ok (bound ++ item_names it) wtab r
+  end.
+
 Definition wf_ctor (m : tagmode) (snap : option string) (c : ctor) : bool :=
   forallb wf_item (c_items c) && guards_bound [] (c_items c)
   && match c_ret c with
      | RNone => match c_items c with [] => true | _ => false end
-     | RObj _ _ => true
+     | RObj _ _ | RObjAlt _ _ _ => true
      | RSame | RSameCls _ => match c_items c with [INamed _ _] => true | _ => false end
      end
-  && match snap, c_ret c with Some _, RObj _ _ | None, _ => true | _, _ => false end
+  && match snap, c_ret c with Some _, RObj _ _ | Some _, RObjAlt _ _ _ | None, _ => true | _, _ => false end
+  && wtab_ok (ctor_wtab (c_items c)) (c_items c) && conds_ok [] (ctor_wtab (c_items c)) (c_items c)
   && match m with
      | TagBitwise => true
      | TagChunk ck => chunk_ok ck (c_tag c)
-     | TagChunks cks => forallb piece_ok cks && tag_aligned (List.length (c_tag c)) cks
+     | TagChunks cks => forallb (fun p => piece_ok (fst p)) cks && tag_aligned (List.length (c_tag c)) cks
      | TagPeek => match c_items c with [INamed _ (FType _ _)] => true | _ => false end
      end.
 
@@ -959,6 +1080,9 @@ Section Need.
     | IGroup fs => S (need_fields fs)
     | IConst _ bits => S (List.length bits)
     | INamedHex _ _ _ | IGuard _ _ _ => 1
+    | ICond _ _ f => S (need_field f)
+    | IRefParam _ T _ => 3 + Nat.max (nty T [0]) (nty T [1])
+    | INamedConst _ _ bits => S (List.length bits)
     end.
   Definition need_items (its : list item) : nat := fold_right (fun it m => (need_item it + m)%nat) 0%nat its.
   Definition need_ctor (c : ctor) : nat := S (need_items (c_items c)).
@@ -998,6 +1122,8 @@ Definition item_refs (it : item) : list (string * list Z) :=
   match it with
   | INamed _ f => fty_refs f
   | IGroup fs => flat_map (fun p => fty_refs (snd p)) fs
+  | ICond _ _ f => fty_refs f
+  | IRefParam _ T _ => [(T, [0]); (T, [1])]
   | _ => []
   end.
 Definition layout_refs (L : tlayout) : list (string * list Z) :=
